@@ -323,6 +323,8 @@ def run(chk):
           "req_address": fidx(a, "humphrey::http::request::Request", "address")}
     tested = handler_rules(chk, a, ix)
     address_cases(chk, a, ix, tested)
+    from . import c02
+    c02.xff_elements(chk, a, "A", "R4.forwarded_recorded")
     dispatcher(chk, a)
     progs = {"A": a, "D": chk.use(core.load("D", fresh=(chk.tier == "thorough"))), "B": chk.use(core.load("B", fresh=(chk.tier == "thorough")))}
     block_mode(chk, progs)
